@@ -92,5 +92,51 @@ package encoding
 //@   ensures sub_bytes: len(result) > 0 ==> (let d = (U - untilOf(result)) / resolution in forall p in 0..len(result)-8 :: result[8+p] == old(seq[8 + d*width + p]))
 //@   ensures keep_inside: len(result) > 0 ==> (let d = (U - untilOf(result)) / resolution in forall k in 0..n :: (abs(asOf) == 0 || U - k*resolution - resolution >= abs(asOf)) && (abs(until) == 0 || U - k*resolution <= abs(until)) ==> d <= k && k < d + periodsOf(result, width))
 //@   ensures drop_outside: len(result) > 0 ==> (let d = (U - untilOf(result)) / resolution in forall k in d..d+periodsOf(result, width) :: (abs(asOf) == 0 || U - k*resolution > abs(asOf)) && (abs(until) == 0 || U - k*resolution - resolution < abs(until)))
+//@   instance res1s_w9: resolution == 1000000000 && width == 9
+//@   instance res250ms_w17: resolution == 250000000 && width == 17
 //@   ensures nothing_kept: len(result) == 0 ==> forall k in 0..n :: !((abs(asOf) == 0 || U - k*resolution - resolution >= abs(asOf)) && (abs(until) == 0 || U - k*resolution <= abs(until)))
+//@   nopanic
+
+// Merge: C03/C04/C05. Never writes its operands (frame); the result is either one of the operands or a fresh
+// sequence spanning from the later until back to the earlier oldest period.
+//@ func (Sequence).Merge
+//@   let w = e.EncodedWidth()
+//@   let swap = len(seq) > 0 && len(other) > 0 && untilOf(other) > untilOf(seq)
+//@   let A = swap ? other : seq
+//@   let B = swap ? seq : other
+//@   requires expr: e != nil
+//@   requires wf: wfSeq(seq, w) && wfSeq(other, w) && resolution > 0 && resolution < 1152921504606846976
+//@   requires times: normalTime(truncateBefore) && (len(seq) > 0 ==> normalAbs(untilOf(seq))) && (len(other) > 0 ==> normalAbs(untilOf(other)))
+//@   requires span: periodsOf(seq, w) * resolution < 1152921504606846976 && periodsOf(other, w) * resolution < 1152921504606846976
+//@   ensures empty_l: len(seq) == 0 ==> result == other
+//@   ensures empty_r: len(seq) != 0 && len(other) == 0 ==> result == seq
+//@   ensures operand_or_fresh: result == seq || result == other || fresh(result)
+//@   ensures shape: len(seq) > 0 && len(other) > 0 && fresh(result) ==> wfSeq(result, w) && untilOf(result) == untilOf(A) && periodsOf(result, w) >= periodsOf(A, w)
+//@   let aP = periodsOf(A, w)
+//@   let bP = periodsOf(B, w)
+//@   let shift = (len(seq) > 0 && len(other) > 0) ? (untilOf(A) - untilOf(B)) / resolution : 0
+//@   let both = len(seq) > 0 && len(other) > 0
+//@   ensures expired: both && untilOf(B) < abs(RoundTimeUntilUp(truncateBefore, resolution, asTime(untilOf(A)))) ==> result == A
+//@   ensures merged_fresh: both && untilOf(B) >= abs(RoundTimeUntilUp(truncateBefore, resolution, asTime(untilOf(A)))) ==> fresh(result) && len(result) > 0
+//@   ensures total: both && fresh(result) ==> periodsOf(result, w) == max(aP, shift + bP)
+//@   ensures val_only_a: both && fresh(result) ==> forall k in 0..aP :: !(shift <= k && k < shift + bP) ==> forall j in 0..w :: result[8+k*w+j] == old(A[8+k*w+j])
+//@   ensures val_only_b: both && fresh(result) ==> forall k in aP..shift+bP :: shift <= k ==> forall j in 0..w :: result[8+k*w+j] == old(B[8+(k-shift)*w+j])
+//@   ensures val_gap: both && fresh(result) ==> forall k in aP..shift :: forall j in 0..w :: result[8+k*w+j] == 0
+//@   ensures val_both: both && fresh(result) ==> forall k in shift..aP :: k < shift + bP ==> forall j in 0..w :: result[8+k*w+j] == mergedByte(e, old(arr(A)), off(A)+8+k*w, old(arr(B)), off(B)+8+(k-shift)*w, j)
+//@   requires aligned: both ==> emod(untilOf(A) - untilOf(B), resolution) == 0
+//@   loop 0 invariant i_range: 0 <= i && i <= overlapPeriods
+//@   loop 0 invariant out_fresh: fresh(out) && obj(out) != 0 && off(out) == 0 && len(out) == 8 + totalPeriods*encodedWidth
+//@   loop 0 invariant sout_pos: obj(sout) == obj(out) && off(sout) == 8 + (max(leadNoOverlapPeriods, 0) + i)*encodedWidth && len(sout) == len(out) - 8 - (max(leadNoOverlapPeriods, 0) + i)*encodedWidth
+//@   loop 0 invariant sa_pos: obj(sa) == obj(A) && off(sa) == off(A) + 8 + (max(leadNoOverlapPeriods, 0) + i)*encodedWidth && len(sa) == len(A) - 8 - (max(leadNoOverlapPeriods, 0) + i)*encodedWidth
+//@   loop 0 invariant sb_pos: obj(sb) == obj(B) && off(sb) == off(B) + 8 + i*encodedWidth && len(sb) == len(B) - 8 - i*encodedWidth
+//@   loop 0 invariant room: max(leadNoOverlapPeriods, 0) + overlapPeriods <= totalPeriods && max(leadNoOverlapPeriods, 0) + overlapPeriods <= periodsOf(A, w) && overlapPeriods <= periodsOf(B, w)
+//@   loop 0 invariant header: untilOf(out) == untilOf(A)
+//@   loop 0 invariant lead_is: max(leadNoOverlapPeriods, 0) == min(shift, aP) && overlapPeriods == min(aP, shift + bP) - min(shift, aP) && totalPeriods == max(aP, shift + bP)
+//@   loop 0 invariant done_lead: forall k in 0..max(leadNoOverlapPeriods, 0) :: forall j in 0..w :: out[8+k*w+j] == old(A[8+k*w+j])
+//@   loop 0 invariant done_merge: forall k in max(leadNoOverlapPeriods, 0)..max(leadNoOverlapPeriods, 0)+i :: forall j in 0..w :: out[8+k*w+j] == mergedByte(e, old(arr(A)), off(A)+8+k*w, old(arr(B)), off(B)+8+(k-shift)*w, j)
+//@   loop 0 invariant rest_zero: forall p in 8+(max(leadNoOverlapPeriods, 0)+i)*w..len(out) :: out[p] == 0
+//@   loop 0 modifies out[8:len(out)]
+//@   loop 0 decreases overlapPeriods - i
+//@   instance res1s_w9: resolution == 1000000000 && e.EncodedWidth() == 9
+//@   instance res250ms_w17: resolution == 250000000 && e.EncodedWidth() == 17
 //@   nopanic
